@@ -31,6 +31,7 @@ PROP = {
              "two consecutive steps on 2 sources are checked directly.",
         note=TB + "std::collections::BinaryHeap executed as compiled (not re-verified); sources are closure iterators (a partially consumed source is a shorter source); > 3 live sources outside.",
         technique="bounded model checking of the real code (Kani/CBMC): end-to-end for the chain, inductive step for the heap merge"),
+    "seed_extra": [("c09_chain", 2, 10), ("c09_merge", 1, 30)],
     "inject": [("src/utils/sorting_multi_readeriterator.rs", "multi_it.rs")],
     "functions": ["SequentialMultiIterator::{new,next,new_or_single_it}", "SortingMultiReaderIterator::{new,next,new_or_single_it}",
                   "MinHeapEntry::{cmp,partial_cmp,eq}", "std BinaryHeap::{push,pop,iter} as compiled"],
